@@ -34,6 +34,18 @@ def worker_cmd(pid, extra):
     return [PY, "-B", "-X", "faulthandler", "-m", "vf.worker", pid] + extra
 
 
+def _use_checkpoint(out, results):
+    """a shard that did not finish: what it had observed up to its last checkpoint still counts (the run stays
+    inconclusive for what it did not get to, but a violation that was seen is a violation)"""
+    part = out + ".part"
+    if os.path.exists(part):
+        try:
+            with open(part) as fh:
+                results.append(json.load(fh))
+        except Exception:
+            pass
+
+
 def run_workers(pid, tier, seed, work, nshards, time_cap, watchdog):
     procs = []
     for s in range(nshards):
@@ -51,12 +63,14 @@ def run_workers(pid, tier, seed, work, nshards, time_cap, watchdog):
             p.kill()
             p.wait()
             problems.append(f"shard {s} hit the {watchdog:.0f}s watchdog")
+            _use_checkpoint(out, results)
             continue
         finally:
             log.close()
         if rc != 0 or not os.path.exists(out):
             tail = open(os.path.join(work, f"shard-{s}.log")).read()[-1500:]
             problems.append(f"shard {s} exited {rc}: {tail}")
+            _use_checkpoint(out, results)
             continue
         with open(out) as fh:
             results.append(json.load(fh))
